@@ -23,8 +23,8 @@ PLANS["C01"] = {
             "of >= 2 taps is executed on at least one axis; distinct = distinct case descriptor",
     "assumptions": ["the f64 reference model in harness/src/refmodel.rs states the ideal filter of the property",
                     "NEON/WASM kernels are not executable on this host"],
-    "quick": [step("rel", "firv-core", 300000), step("asan", "firv-core", 30000), step("dbg", "firv-core", 30000)],
-    "thorough": [step("rel", "firv-core", 6000000, timeout=7200), step("asan", "firv-core", 300000, timeout=7200),
+    "quick": [step("rel+rayon", "firv-core", 48000, args=["--pool", "3"], tag="pool3", seed_offset=7000), step("rel", "firv-core", 300000), step("asan", "firv-core", 30000), step("dbg", "firv-core", 30000)],
+    "thorough": [step("rel+rayon", "firv-core", 480000, args=["--pool", "3"], tag="pool3", seed_offset=7000, timeout=7200), step("rel", "firv-core", 6000000, timeout=7200), step("asan", "firv-core", 300000, timeout=7200),
                  step("dbg", "firv-core", 300000, timeout=7200)],
 }
 FLOORS["C01"] = {
@@ -47,8 +47,8 @@ PLANS["C02"] = {
             "muldiv: alpha multiply/divide of rows of every length 1..70 and random lengths, in-place and two-image; "
             "non-trivial = at least one convolution pass ran (resize) / any row (muldiv); distinct = distinct descriptor",
     "assumptions": CONV_ASSUME,
-    "quick": [step("rel", "firv-core", 160000), step("rel", "firv-core", 60000, sub="muldiv")],
-    "thorough": [step("rel", "firv-core", 10000000, timeout=7200), step("rel", "firv-core", 4000000, sub="muldiv", timeout=7200),
+    "quick": [step("rel+rayon", "firv-core", 32000, args=["--pool", "2"], tag="pool2", seed_offset=7000), step("rel", "firv-core", 160000), step("rel", "firv-core", 60000, sub="muldiv")],
+    "thorough": [step("rel+rayon", "firv-core", 640000, args=["--pool", "2"], tag="pool2", seed_offset=7000, timeout=7200), step("rel", "firv-core", 10000000, timeout=7200), step("rel", "firv-core", 4000000, sub="muldiv", timeout=7200),
                  step("asan", "firv-core", 400000, timeout=7200)],
 }
 
@@ -77,8 +77,8 @@ PLANS["C07"] = {
             "divide_alpha bit for bit; non-trivial = source has both transparent and "
             "non-transparent pixels; geometries where dst size == integer crop (C12: exact copy) are excluded and counted",
     "assumptions": CONV_ASSUME + ["colours under zero alpha are finite (NaN*0 is NaN in any implementation)"],
-    "quick": [step("rel", "firv-core", 120000)],
-    "thorough": [step("rel", "firv-core", 15000000, timeout=7200), step("asan", "firv-core", 400000, timeout=7200)],
+    "quick": [step("rel+rayon", "firv-core", 32000, args=["--pool", "4"], tag="pool4", seed_offset=7000), step("rel", "firv-core", 120000)],
+    "thorough": [step("rel+rayon", "firv-core", 640000, args=["--pool", "4"], tag="pool4", seed_offset=7000, timeout=7200), step("rel", "firv-core", 15000000, timeout=7200), step("asan", "firv-core", 400000, timeout=7200)],
 }
 FLOORS["C07"] = {"quick": [
     (">= 10000 cases with partial transparency, >= 1000 opaque cases, >= 10^5 zero-alpha destination pixels, >= 10^5 composition checks, >= 10^5 alpha-plane checks",
@@ -92,8 +92,8 @@ PLANS["C10"] = {
             "65 000 explored, verdict only for <= 8192 taps); every destination component must equal the constant (floats: 1 ulp); "
             "non-trivial = kernel of >= 2 taps inside the verdict domain",
     "assumptions": CONV_ASSUME,
-    "quick": [step("rel", "firv-core", 160000)],
-    "thorough": [step("rel", "firv-core", 20000000, timeout=7200), step("asan", "firv-core", 400000, timeout=7200)],
+    "quick": [step("rel+rayon", "firv-core", 32000, args=["--pool", "3"], tag="pool3", seed_offset=7000), step("rel", "firv-core", 160000)],
+    "thorough": [step("rel+rayon", "firv-core", 640000, args=["--pool", "3"], tag="pool3", seed_offset=7000, timeout=7200), step("rel", "firv-core", 20000000, timeout=7200), step("asan", "firv-core", 400000, timeout=7200)],
 }
 FLOORS["C10"] = {"quick": [
     ("all 256 8-bit values used", lambda o: len(o["sets"]["u8_values"]) == 256),
@@ -111,10 +111,10 @@ PLANS["C11"] = {
             "class with integer origin and a fractional size whose integer part is the destination size; the edge-flush class also through "
             "all source containers (C13 workload); non-trivial = destination size differs from the crop size",
     "assumptions": CONV_ASSUME,
-    "quick": [step("rel", "firv-core", 160000), step("asan", "firv-core", 16000), step("miri", "firv-core", 320, shards=16, timeout=3000),
+    "quick": [step("rel+rayon", "firv-core", 32000, args=["--pool", "5"], tag="pool5", seed_offset=7000), step("rel", "firv-core", 160000), step("asan", "firv-core", 16000), step("miri", "firv-core", 320, shards=16, timeout=3000),
               # the edge-flush geometry through cropped / nested / dynamic source containers (their own row stepping)
               step("rel", "firv-views", 48000, sub="nearest_edge", prop_arg="C13")],
-    "thorough": [step("rel", "firv-core", 4000000, timeout=7200), step("asan", "firv-core", 400000, timeout=7200),
+    "thorough": [step("rel+rayon", "firv-core", 320000, args=["--pool", "5"], tag="pool5", seed_offset=7000, timeout=7200), step("rel", "firv-core", 4000000, timeout=7200), step("asan", "firv-core", 400000, timeout=7200),
                  step("miri", "firv-core", 3200, shards=16, timeout=14000),
                  step("rel", "firv-views", 1000000, sub="nearest_edge", prop_arg="C13", timeout=7200)],
 }
@@ -130,8 +130,8 @@ PLANS["C12"] = {
             "intermediate has the destination size must equal the nearest-neighbour picks (alpha channel only when alpha handling is on); "
             "every case is non-trivial; distinct = distinct descriptor",
     "assumptions": CONV_ASSUME,
-    "quick": [step("rel", "firv-core", 120000)],
-    "thorough": [step("rel", "firv-core", 30000000, timeout=7200), step("asan", "firv-core", 400000, timeout=7200)],
+    "quick": [step("rel+rayon", "firv-core", 48000, args=["--pool", "3"], tag="pool3", seed_offset=7000), step("rel", "firv-core", 120000)],
+    "thorough": [step("rel+rayon", "firv-core", 640000, args=["--pool", "3"], tag="pool3", seed_offset=7000, timeout=7200), step("rel", "firv-core", 30000000, timeout=7200), step("asan", "firv-core", 400000, timeout=7200)],
 }
 FLOORS["C12"] = {"quick": [
     (">= 10000 cases of each of the four modes", lambda o: all(o["counters"][k] >= 10000 for k in ("same_size", "rows_match", "columns_match", "supersampling_identity"))),
@@ -145,8 +145,8 @@ PLANS["C18"] = {
             "destination component must lie in the source channel's [min,max] and resize(A) <= resize(B) componentwise (floats: 1 ulp); "
             "non-trivial = kernel of >= 2 taps",
     "assumptions": CONV_ASSUME,
-    "quick": [step("rel", "firv-core", 120000)],
-    "thorough": [step("rel", "firv-core", 15000000, timeout=7200), step("asan", "firv-core", 400000, timeout=7200)],
+    "quick": [step("rel+rayon", "firv-core", 32000, args=["--pool", "2"], tag="pool2", seed_offset=7000), step("rel", "firv-core", 120000)],
+    "thorough": [step("rel+rayon", "firv-core", 320000, args=["--pool", "2"], tag="pool2", seed_offset=7000, timeout=7200), step("rel", "firv-core", 15000000, timeout=7200), step("asan", "firv-core", 400000, timeout=7200)],
 }
 FLOORS["C18"] = {"quick": [
     (">= 10^8 components checked, kernels up to >= 4096 taps", lambda o: o["counters"]["components_checked"] >= 10 ** 8 and o["maxima"]["kernel_len_max"] >= 4096),
@@ -311,12 +311,12 @@ PLANS["C06"] = {
             "non-trivial = every block; distinct = distinct block descriptor",
     "assumptions": ["NEON/WASM kernels are not executable on this host", "float inputs are finite (NaN is not generated)"],
     "exhaustive": {"quick": False, "thorough": True},
-    "quick": [step("rel", "firv-misc", 0, sub="u8", timeout=3000), step("rel", "firv-misc", 400, sub="u16"), step("rel", "firv-misc", 40000, sub="f32"),
+    "quick": [step("rel+rayon", "firv-misc", 64000, args=["--pool", "3"], tag="pool3", seed_offset=7000, sub="patterns"), step("rel", "firv-misc", 0, sub="u8", timeout=3000), step("rel", "firv-misc", 400, sub="u16"), step("rel", "firv-misc", 40000, sub="f32"),
               step("rel", "firv-misc", 0, sub="unsupported", shards=1), step("dbg", "firv-misc", 60, sub="u16"), step("asan", "firv-misc", 60, sub="u16"),
               step("asan", "firv-misc", 4000, sub="f32"), step("miri", "firv-misc", 192, sub="small", shards=16, timeout=3000),
               # rows of length 1..=70 whose alphas come in runs and blocks (uniform and half-uniform groups of 2..16 pixels at every phase)
               step("rel", "firv-misc", 200000, sub="patterns"), step("asan", "firv-misc", 20000, sub="patterns")],
-    "thorough": [step("rel", "firv-misc", 0, sub="u8", timeout=7200), step("rel", "firv-misc", 4000, sub="u16", timeout=7200),
+    "thorough": [step("rel+rayon", "firv-misc", 2000000, args=["--pool", "3"], tag="pool3", seed_offset=7000, sub="patterns", timeout=7200), step("rel", "firv-misc", 0, sub="u8", timeout=7200), step("rel", "firv-misc", 4000, sub="u16", timeout=7200),
                  step("rel", "firv-misc", 20000000, sub="patterns", timeout=7200),
                  step("rel", "firv-misc", 0, sub="u16full", timeout=14000), step("rel", "firv-misc", 4000000, sub="f32", timeout=7200),
                  step("rel", "firv-misc", 0, sub="unsupported", shards=1), step("dbg", "firv-misc", 400, sub="u16", timeout=7200),
@@ -339,10 +339,10 @@ PLANS["C09"] = {
             "SuperSampling of a few hundred pixels per side, resets and clones in between; the H3 scratch hook proves reuse-without-growth, growth and (under Miri, where Vec<u8> is 1-aligned) "
             "misaligned-head paths were executed; non-trivial = every history; distinct = distinct history descriptor",
     "assumptions": CONV_ASSUME,
-    "quick": [step("rel", "firv-misc", 3200), step("asan", "firv-misc", 640), step("miri", "firv-misc", 160, shards=16, timeout=3000),
+    "quick": [step("rel+rayon", "firv-misc", 640, args=["--pool", "4"], tag="pool4", seed_offset=7000), step("rel", "firv-misc", 3200), step("asan", "firv-misc", 640), step("miri", "firv-misc", 160, shards=16, timeout=3000),
               # histories with big images (intermediates of several MB, a retained buffer beyond 64 MB); few processes: ~400 MB each
               step("rel", "firv-misc", 48, sub="big", shards=4)],
-    "thorough": [step("rel", "firv-misc", 160000, timeout=7200), step("asan", "firv-misc", 32000, timeout=7200),
+    "thorough": [step("rel+rayon", "firv-misc", 16000, args=["--pool", "4"], tag="pool4", seed_offset=7000, timeout=7200), step("rel", "firv-misc", 160000, timeout=7200), step("asan", "firv-misc", 32000, timeout=7200),
                  step("rel", "firv-misc", 2000, sub="big", shards=4, timeout=7200),
                  step("miri", "firv-misc", 1600, shards=16, timeout=20000)],
 }
@@ -453,3 +453,10 @@ FLOORS["C08"] = {"quick": [
     (">= 10^6 size pairs through the band-count functions, >= 10^5 with area beyond u32", lambda o: o["counters"]["size_pairs"] >= 10 ** 6 and o["counters"]["pairs_with_area_beyond_u32"] >= 10 ** 5),
 ]}
 FLOORS["C08"]["thorough"] = FLOORS["C08"]["quick"]
+
+# Pool steps (tag "poolN"): the same monitor, other random cases, with the library's rayon code running in a global pool of N threads.
+# Results are specified independently of the thread count, so every oracle applies unchanged; destinations of about 32x32 and more
+# are split into bands.
+for _p in ("C01", "C02", "C06", "C07", "C09", "C10", "C11", "C12", "C18"):
+    PLANS[_p]["rule"] += ("; pool step: the same workload (other random cases) in a build with the rayon feature and a global pool of "
+                          "2-5 threads - the oracle is unchanged, because the result is specified independently of the thread count")
